@@ -69,6 +69,9 @@ func checkC03(r *Run) {
 	c03Readmsg(r, rm)
 	c03ReadFcall(r, rf, rm)
 	c02OverflowExposed(r)
+	// frame isolation continues through the decoder: every decoded field is read into storage made for it (the
+	// codec-grammar rules: decode(*[]byte) is make + read), never a view of the channel's reused read buffer
+	c01Grammar(r)
 	// the inbound Tread clamp is maybeTruncate's Tread clause: C03 relies on it lowering every count whose largest
 	// reply would not fit (rules shared with C02)
 	if mt := r.P.Fn("p9p:(*channel).maybeTruncate"); mt != nil {
